@@ -341,6 +341,8 @@ def triggers_of(case):
         out.append("request-header-repeated-in-different-spellings")
     if rs["body"]["kind"] == "none" and rs.get("compression") in ("auto", "deflate", "gzip"):
         out.append("bodyless-response+compression")
+    if not v10 and rq.get("expect100") and (rq["body"]["kind"] == "none" or (rq["body"].get("size", 0) == 0 and rq["body"]["kind"] in ("bytes", "bytearray", "str", "bytesio", "file", "asyncgen"))):
+        out.append("expect100+empty-request-content")
     if any(c == "te" for _n, _v, c in rq["headers"]):
         out.append("user-supplied-transfer-encoding-header")
     if rq["method"].upper() in ("GET", "HEAD", "OPTIONS", "TRACE") and rq["body"]["kind"] == "none" and rq.get("chunked"):
@@ -1447,6 +1449,8 @@ def report(rec, case, v, ex):
         ),
     )
     rec.sig("keepalive-outcome", (rq["version"], rq.get("conn_close"), case["client"].get("force_close"), rs.get("force_close"), rs["body"]["kind"], rs["status"], rq["method"].upper() == "HEAD", outcome))
+    if v and st == "main":
+        rec.count("main-stratum-cases-with-a-violation")
     seen = set()
     for mech, summ in v:
         if mech in seen:
